@@ -42,6 +42,7 @@ def _analyses():
     from .analyses import a3_shape as a3
     from .analyses import a3_reduce
     from .analyses import a16_perm
+    from .analyses import a17_labels
     from .analyses import a4_kind as a4
     from .analyses import a5_factor, a5_linear, a7_axis, a8_taint
     from .analyses import kernel_api as ka
@@ -54,7 +55,7 @@ def _analyses():
     thread = lambda c, w: kt.global_effects(c, w, thread=True)
     return {
         "C01": (
-            [a3.vjp, a3.helpers, a3_reduce.reductions, km.squeeze_axes, a16_perm.permutations_rule, a16_perm.norm_rolls, vjp_axis, a2.catchall, a2.variadic, a1.arity, ka.option_domains, a5_factor.agree, ka.arraybox_table],
+            [a3.vjp, a3.helpers, a3_reduce.reductions, km.squeeze_axes, a16_perm.permutations_rule, a16_perm.norm_rolls, a17_labels.contraction_adjoints, vjp_axis, a2.catchall, a2.variadic, a1.arity, ka.option_domains, a5_factor.agree, ka.arraybox_table],
             "Reverse-mode exactness is numerical; decided here are the configuration-dependent plumbing clauses every exact rule needs: "
             "broadcast discipline of VJPs (A3.vjp), negative-axis hazards (A7), keyword/positional binding behind catch-alls (A2.catchall), "
             "variadic offsets (A2.variadic), arity (A1.arity), closed option domains (A6.enum), VJP/JVP factor agreement of elementwise rules (A5) "
@@ -72,7 +73,7 @@ def _analyses():
             "accumulating into the current entry), alignment of parents/argnums/rules in the wrapper and in all dispatch branches (A13.align), node constructor slots (A2.slot).",
         ),
         "C04": (
-            [a5_factor.agree, a5_linear.closures_linear, a1.lin, a3.vjp, a3.jvp],
+            [a5_factor.agree, a5_linear.closures_linear, a1.lin, a3.vjp, a3.jvp, a17_labels.contraction_adjoints],
             "Adjointness: equal normal forms of the VJP and JVP factors of every elementwise primitive with both rules (a diagonal operator is self-adjoint, so equality of the "
             "factors IS adjointness for all inputs); linearity in g of every rule closure (two-point domain over linear_in facts); 'same' entries only on linear pairs.",
         ),
